@@ -534,6 +534,17 @@ class Interp:
         if name in self.contracts:
             return self.contracts[name](self, list(args), kwargs)
         if name in self.stubs:
+            import inspect
+
+            if name.startswith("torch.") and "input" in kwargs:  # torch's name of the first (tensor) argument of its functions
+                args, kwargs = [kwargs["input"]] + list(args), {k_: v_ for k_, v_ in kwargs.items() if k_ != "input"}
+
+            try:
+                inspect.signature(self.stubs[name]).bind(self, *args, **kwargs)
+            except TypeError as e_:  # e.g. keywords where the stub takes positionals: not modelled, rather than an engine crash
+                raise Unsupported("the call form of %s is not modelled by its stub (%s)" % (name, e_))
+            except ValueError:
+                pass
             return self.stubs[name](self, *args, **kwargs)
         if type(f).__name__ == "ScriptFunction" and f.qualified_name.startswith("__torch__.pydrobert.torch"):
             # TorchScript-compiled repo function: the verified text is its Python source (assumption: same semantics)
